@@ -314,6 +314,36 @@ def _eval_layer(tf, tfl, d):
       layer.scale.assign(np.array(assign, dtype=np.float64))
   # property predicate on the implementation's outputs
   fail = None
+  # auxiliary (C07_idempotent / C07_order_irrelevant on the implementation): once both constraints
+  # have been applied, applying them again, or having applied them in the other order, does not
+  # change the function
+  aux_fail = None
+  if seen_k and seen_s:
+    last_seg = segs[-1][0]
+    layer.finalize_constraints()
+    if layer.kernel.constraint is not None:
+      layer.kernel.assign(layer.kernel.constraint(layer.kernel))
+    if layer.scale.constraint is not None:
+      layer.scale.assign(layer.scale.constraint(layer.scale))
+    outs2 = _outs(layer(x), len(pts), units)
+    for o1, o2, p in zip(outs, outs2, pts):
+      for u in range(units):
+        if abs(o1[u] - o2[u]) > 1e-9 * max(1.0, abs(o1[u])):
+          aux_fail = "re-applying the constraints changed the output of unit %d at %r: %r -> %r" % (u, p[u], o1[u], o2[u])
+    names = [s[0] for s in last_seg]
+    if names in (["K", "S"], ["S", "K"]):
+      layer.kernel.assign(np.array(kb, dtype=np.float64)[None])
+      layer.scale.assign(np.array(sb, dtype=np.float64))
+      for nm in reversed(names):
+        v = layer.kernel if nm == "K" else layer.scale
+        if v.constraint is not None:
+          v.assign(v.constraint(v))
+      outs3 = _outs(layer(x), len(pts), units)
+      for o1, o3, p in zip(outs, outs3, pts):
+        for u in range(units):
+          if abs(o1[u] - o3[u]) > 1e-9 * max(1.0, abs(o1[u])):
+            aux_fail = "the order of kernel and scale constraint changes the output of unit %d at %r: %r vs %r" % (
+                u, p[u], o1[u], o3[u])
   def tol(*vs):
     return 1e-9 * max([1.0] + [abs(v) for v in vs])
   def inr(p):
@@ -337,10 +367,12 @@ def _eval_layer(tf, tfl, d):
           fail = "output %r of unit %d at %r below output_min %r" % (o[u], u, p[u], d["omin"])
         if d["omax"] is not None and o[u] > d["omax"] + tol(d["omax"]):
           fail = "output %r of unit %d at %r above output_max %r" % (o[u], u, p[u], d["omax"])
+  fail = fail or aux_fail
   mclass = "mNone" if ms is None else ("m0" if not any(ms) else ("mall" if all(ms) else "msome"))
   bclass = ("min" if d["omin"] is not None else "") + ("max" if d["omax"] is not None else "") or "nob"
-  sclass = "".join(s[0] for s in d["steps"])
-  klass = "layer_%s_%s_%s_u%d" % (mclass, bclass, sclass if len(sclass) <= 3 else sclass[:3] + "+", min(units, 2))
+  names = "".join(s[0] for s in d["steps"])
+  hclass = "reassign" if "A" in names else (names if len(names) <= 2 else "repeat")
+  klass = "layer_%s_%s_%s" % (mclass, bclass, hclass)
   return Case(d, coq=terms_coq, pred_fail=fail, nontrivial=changed, klass=klass,
               info={"impl_outputs": outs, "impl_kernel": ka, "impl_scale": sa})
 
